@@ -408,7 +408,7 @@ def monParse (d : Dicts) (mode : String) (w : Bytes) (obs : List String) : List 
                         | some defs => defs.any (fun n => nums.contains n.tag && n.children.any (fun c => !c.children.isEmpty && nums.contains c.tag))
                         | none => false
           let c2 := if h == keys .h && b == keys .b && t == keys .t then []
-                    else [s!"sections\{dict={k},nested={if nested then "y" else "n"}}"]
+                    else [s!"parsed_sections\{dict={k},nested={if nested then "y" else "n"}}"]
           c1 ++ c2
         | _ => ["fields_faithful"]
       else []
